@@ -127,15 +127,15 @@ def ownerDisable (s : OwnerSt) (plugin : Option (Str × List Str)) (command : St
       (⟨s.store.add command none,
         if s.conf.contains (canonicalName command) then s.conf else s.conf ++ [canonicalName command]⟩, true)
 
-/-- `Owner.enable [<plugin>] <command>`: the store is changed first; a KeyError from either step is
-reported ("That command wasn't disabled.") — the store change of the first step is then kept -/
+/-- `Owner.enable [<plugin>] <command>` (after fix 6f88b83): the name is looked up in the registry set
+first — when it is not there the command answers "That command wasn't disabled." and nothing
+changes; otherwise it is removed from the set and from the live store (a KeyError of the store,
+which may already have lost the entry, is ignored) and the command reports success -/
 def ownerEnable (s : OwnerSt) (plugin : Option Str) (command : Str) : OwnerSt × Bool :=
-  match s.store.remove command plugin with
-  | none => (s, false)
-  | some store' =>
-    let name := match plugin with | some p => dotted p command | none => canonicalName command
-    if s.conf.contains name then (⟨store', s.conf.filter fun x => x ≠ name⟩, true)
-    else (⟨store', s.conf⟩, false)
+  let name := match plugin with | some p => dotted p command | none => canonicalName command
+  if s.conf.contains name then
+    (⟨(s.store.remove command plugin).getD s.store, s.conf.filter fun x => x ≠ name⟩, true)
+  else (s, false)
 
 inductive GErr where
   | indexError                -- `args[0]` on an empty list
